@@ -330,6 +330,9 @@ def build(cfg, world, shared=None):
         sig_universe = StaticUniverse(['EQ:' + s_ for s_ in cfg['market']['assets']])
     signals = None
     sigs = {}
+    # the signals may have been created for an inception date before this session's start (members that joined in
+    # between are only picked up when the asset lists are next refreshed)
+    sig_start = start - pd.Timedelta(days=20) if al.get('early_signals') else start
     sig_handler = handler
     if al.get('signal_handler') == 'other_adjust' and getattr(world, 'extra', None) is None:
         # the signals read their closes from their own data handler (same files, the other price-adjustment setting)
@@ -343,11 +346,11 @@ def build(cfg, world, shared=None):
     elif al['kind'] == 'switch':
         alpha = SwitchAlpha(al['first'], al['then'], ts(al['when']))
     elif al['kind'] == 'topn_mom':
-        sigs['momentum'] = MomentumSignal(start, sig_universe, lookbacks=[al['lookback']] + list(al.get('extra_lookbacks', [])))
+        sigs['momentum'] = MomentumSignal(sig_start, sig_universe, lookbacks=[al['lookback']] + list(al.get('extra_lookbacks', [])))
         signals = SignalsCollection(sigs, sig_handler)
         alpha = topn_class()(signals, al['lookback'], al['top'], universe, handler)
     elif al['kind'] == 'mom_sign':
-        sigs['momentum'] = MomentumSignal(start, sig_universe, lookbacks=[al['lookback']])
+        sigs['momentum'] = MomentumSignal(sig_start, sig_universe, lookbacks=[al['lookback']])
         signals = SignalsCollection(sigs, sig_handler)
         alpha = MomSignAlpha(signals, al['lookback'], universe)
     elif al['kind'] == 'sma_trend':
@@ -363,17 +366,17 @@ def build(cfg, world, shared=None):
                     self.tally.append((asset, price))
                     super().append(asset, price)
             sma_cls = TallySMA
-        sigs['sma'] = sma_cls(start, sig_universe, lookbacks=[al['fast'], al['slow']])
+        sigs['sma'] = sma_cls(sig_start, sig_universe, lookbacks=[al['fast'], al['slow']])
         signals = SignalsCollection(sigs, sig_handler)
         alpha = SMATrendAlpha(signals, al['fast'], al['slow'], universe, short=not cfg['long_only'])
     elif al['kind'] == 'inv_vol':
-        sigs['vol'] = VolatilitySignal(start, sig_universe, lookbacks=[al['lookback']])
+        sigs['vol'] = VolatilitySignal(sig_start, sig_universe, lookbacks=[al['lookback']])
         if al.get('with_sma'):
             sma_universe = sig_universe
             if al.get('mixed_universes'):
                 # two signals of one collection on different universes
                 sma_universe = StaticUniverse(['EQ:' + s_ for s_ in cfg['market']['assets']])
-            sigs['sma'] = SMASignal(start, sma_universe, lookbacks=[al['with_sma']])
+            sigs['sma'] = SMASignal(sig_start, sma_universe, lookbacks=[al['with_sma']])
         signals = SignalsCollection(sigs, sig_handler)
         alpha = InvVolAlpha(signals, al['lookback'], universe)
     else:
@@ -442,6 +445,21 @@ def run_session(cfg, world, shared=None, observer=None):
         tr.signal_names = {id(s): n for n, s in sigs.items()}
         if observer is not None:
             observer(tr)
+        # what a script may do with a freshly built session before running it: look at the first event of its clock,
+        # refresh the signals' asset lists for the start instant, ask the (still empty) account for its equity
+        look = (len(cfg['start']) + len(cfg['market']['assets']) + int(cfg['market']['seed'])) % 4
+        if look == 1:
+            for ev_ in sess.sim_engine:                 # walk the clock up to its first close, then leave it
+                if ev_.event_type == 'market_close':
+                    break
+        elif look == 2:
+            for sg in sigs.values():
+                sg.update_assets(ts(cfg['start']))
+                sg.update_assets(ts(cfg['start']))
+        elif look == 3:
+            sess.broker.get_account_total_equity()
+            sess.broker.get_portfolio_total_market_value(sess.portfolio_id)
+        tr.looked_before_run = look
         try:
             with core.loud(bool(cfg.get('loud'))):
                 sess.run()
@@ -1141,6 +1159,12 @@ def gen_cfg(rng, alpha_kinds=('fixed',), universe_kinds=('static',), max_days=25
         cfg['alpha']['signal_universe'] = 'static_all'
     elif ak == 'inv_vol' and cfg['alpha'].get('with_sma') and signal_universes and rng.random() < 0.85:
         cfg['alpha']['mixed_universes'] = True
+    if ak in ('topn_mom', 'mom_sign', 'sma_trend', 'inv_vol') and rng.random() < 0.25:
+        cfg['alpha']['early_signals'] = True
+        if cfg['universe']['kind'] == 'dynamic' and rng.random() < 0.6:
+            # ... and one member joined between the signals' inception and the session's start
+            a_ = rng.choice(sorted(cfg['universe']['dates']))
+            cfg['universe']['dates'][a_] = '%s 00:00:00+00:00' % (d0 - dt.timedelta(days=rng.randint(1, 15))).isoformat()
     if ak in ('topn_mom', 'mom_sign', 'sma_trend', 'inv_vol') and signal_universes and rng.random() < 0.2:
         cfg['alpha']['signal_handler'] = 'other_adjust'
         cfg['market']['ratio'] = {s_: rng.choice([0.5, 0.83, 0.9]) for s_ in syms}
